@@ -1,9 +1,104 @@
+// vcheck is the one CLI every MANIFEST command calls:
+//
+//	vcheck <Cxx> [--tier quick|thorough] [--seed N] [--replay path]
+//
+// It always rebuilds goderive from the repository's current working tree (VERIF_REPO, default
+// /repo) with -tags verif -cover, generates the seed-determined case list of the property, drives
+// the executions, decides with the property's oracle and writes evidence/<Cxx>.json.
+// Exit status: 0 held on everything explored (known findings are listed), 1 violation,
+// 2 the check itself is broken / inconclusive.
 package main
 
 import (
+	"flag"
 	"fmt"
-
-	"github.com/anishathalye/porcupine"
+	"os"
+	"os/exec"
+	"sort"
+	"strconv"
 )
 
-func main() { fmt.Println(porcupine.Ok) }
+type checkFn func(c *Ctx)
+
+type checkDef struct {
+	fn    checkFn
+	level string
+}
+
+var checks = map[string]checkDef{}
+
+func register(id, level string, fn checkFn) { checks[id] = checkDef{fn, level} }
+
+func main() {
+	if len(os.Args) < 2 {
+		usage()
+	}
+	prop := os.Args[1]
+	fs := flag.NewFlagSet("vcheck", flag.ExitOnError)
+	tier := fs.String("tier", envOr("VERIF_TIER", "quick"), "quick | thorough")
+	seedDefault, _ := strconv.ParseInt(envOr("VERIF_SEED", "1"), 10, 64)
+	seed := fs.Int64("seed", seedDefault, "seed for every random choice")
+	replay := fs.String("replay", "", "replay directory of a reported violation")
+	fs.Parse(os.Args[2:])
+	if prop == "list" {
+		ids := make([]string, 0, len(checks))
+		for id := range checks {
+			ids = append(ids, id)
+		}
+		sort.Strings(ids)
+		for _, id := range ids {
+			fmt.Println(id, checks[id].level)
+		}
+		return
+	}
+	def, ok := checks[prop]
+	if !ok {
+		fmt.Fprintf(os.Stderr, "vcheck: unknown property %q\n", prop)
+		usage()
+	}
+	if *replay != "" {
+		cmd := exec.Command("sh", "replay.sh")
+		cmd.Dir = *replay
+		cmd.Stdout, cmd.Stderr = os.Stdout, os.Stderr
+		if err := cmd.Run(); err != nil {
+			fmt.Printf("VIOLATION property=%s replay=%s\n", prop, *replay)
+			os.Exit(1)
+		}
+		os.Exit(0)
+	}
+	if *tier != "quick" && *tier != "thorough" {
+		fmt.Fprintln(os.Stderr, "vcheck: --tier must be quick or thorough")
+		os.Exit(2)
+	}
+	c, err := newCtx(prop, *tier, *seed, def.level)
+	if err != nil {
+		fmt.Printf("BROKEN: %v\n", err)
+		os.Exit(2)
+	}
+	code := 2
+	func() {
+		defer c.Env.Cleanup()
+		defer func() {
+			if e := recover(); e != nil {
+				fmt.Printf("BROKEN: check panicked: %v\n", e)
+				panic(e)
+			}
+		}()
+		def.fn(c)
+		c.finishCoverage()
+		code = c.Run.Finish()
+	}()
+	os.Exit(code)
+}
+
+func envOr(k, d string) string {
+	if v := os.Getenv(k); v != "" {
+		return v
+	}
+	return d
+}
+
+func usage() {
+	fmt.Fprintln(os.Stderr, "usage: vcheck <C01..C20|list> [--tier quick|thorough] [--seed N] [--replay path]")
+	os.Exit(2)
+}
